@@ -812,6 +812,11 @@ def install_arrays(reg: Registry):
     reg.handlers["xp.copy"] = xp_copy
     reg.handlers["xp.clone"] = xp_copy
 
+    @H("xp.to_device")
+    def xp_to_device(i, a, k, n):
+        assumed(i, "xp.to_device: moves an array to a device; the elements are unchanged")
+        return a[0]
+
     @H("xp.atleast_2d")
     def atleast_2d(i, a, k, n):
         x = a[0]
